@@ -620,7 +620,7 @@ class App(falcon.app.App):
                 # NOTE(kgriffs): If they are going to stream using an
                 #   async generator, we can't know in advance what the
                 #   content length will be.
-                (data is not None or not resp.stream)
+                (data is not None or resp.stream is None)
                 and req.method == 'HEAD'
                 and resp_status not in _BODILESS_STATUS_CODES
                 and 'content-length' not in resp._headers
